@@ -171,7 +171,7 @@ RecClass(h, n, cname, fuel) ==
     IF c.hasrecog THEN RecogEffect(h, n, cname, fuel)
     ELSE IF c.kind = "enum" THEN
         (IF h[n].k = "s" /\ h[n].t \in {"str", "bool"}
-         THEN RR({T}, [h EXCEPT ![n].t = "str"], "", {}, NoK)   \* in-place retag
+         THEN RR({T}, h, "", {}, NoK)    \* recognition does not write (retag: Recognise)
          ELSE RR({}, h, "", {n}, NoK))
     ELSE IF IsStringLike(cname) THEN
         (IF h[n].k = "s" /\ h[n].t = "str" THEN RR({T}, h, "", {}, NoK)
@@ -688,7 +688,10 @@ Recognise ==
               /\ Fail({"RecErr"}, r.c, r.k) /\ heap' = r.h
               /\ UNCHANGED <<ret, log>>
           ELSE LET R == CHOOSE t \in r.ts : TRUE IN
-              /\ heap' = r.h
+              \* a boolean-looking enum member becomes a string once the node is
+              \* known to be an enum (loader.py, before savorize)
+              /\ heap' = IF R[1] = "class" /\ IsEnum(R[2]) /\ r.h[f.n].t = "bool"
+                         THEN [r.h EXCEPT ![f.n].t = "str"] ELSE r.h
               /\ stack' = SetTopF([f EXCEPT !.r = R,
                                    !.pc = IF R[1] = "class" THEN "sav" ELSE "desc",
                                    !.ch = IF R[1] = "class" THEN SavChain(R[2]) ELSE <<>>])
